@@ -1010,5 +1010,9 @@ func generate(seed int64, n int) []*Case {
 	for i := 0; i < n/2; i++ {
 		res = append(res, promCase(r, n+n*5/2+1000+n+i))
 	}
+	// modelled stream 4: the Pyroscope read handlers (class and statements issued; coq/model/ReadProf.v), n/2 cases
+	for i := 0; i < n/2; i++ {
+		res = append(res, profCase(r, n+n*5/2+1000+2*n+i))
+	}
 	return res
 }
